@@ -486,6 +486,10 @@ func TestFixedDialect(t *testing.T) {
 		{gen.NSet("o", gen.NMap()), i64(5), gen.NSet("x", gen.NAttr(id("o"), id("b"))), gen.NCall("probe", str("stale"), id("x"))},
 		{gen.NSet("l", gen.NList(i64(1))), gen.NAssign("=", []*gen.Node{gen.NIndex(id("l"), i64(0)), id("z")}, []*gen.Node{i64(7), gen.NIndex(id("l"), i64(0))}), gen.NCall("probe", str("elem"), id("l"), id("z"))},
 		{gen.NIf([]*gen.Node{gen.NBool(true)}, [][]*gen.Node{{gen.NSet("inner", i64(1))}}, nil, false), gen.NCall("probe", str("gone"), id("inner"))},
+		// the loop clause runs in the scope of the for statement: a name it creates is seen by later passes, a body-local name is gone
+		{gen.NFor(gen.NSet("i", i64(0)), gen.NBin("<", id("i"), i64(4)), gen.NSet("n", gen.NBin("*", id("i"), i64(10))), []*gen.Node{gen.NIf([]*gen.Node{gen.NBin(">", id("i"), i64(0))}, [][]*gen.Node{{gen.NCall("probe", str("clause-name"), id("i"), id("n"))}}, nil, false), gen.NSet("i", gen.NBin("+", id("i"), i64(1)))})},
+		{gen.NFor(gen.NSet("i", i64(0)), gen.NBin("<", id("i"), i64(6)), gen.NSet("i", gen.NBin("+", gen.NBin("+", id("i"), i64(1)), gen.NCall("len", id("tmp")))), []*gen.Node{gen.NSet("tmp", str("xx")), gen.NCall("probe", str("body"), id("i"), id("tmp"))}), gen.NCall("probe", str("after"))},
+		{gen.NSet("acc", i64(0)), gen.NFor(gen.NSet("i", i64(0)), gen.NBin("<", id("i"), i64(4)), gen.NSet("acc", gen.NBin("+", id("acc"), id("i"))), []*gen.Node{gen.NCall("probe", str("body"), id("i"), id("acc")), gen.NSet("i", gen.NBin("+", id("i"), i64(1))), gen.NSet("loc", id("i"))}), gen.NCall("probe", str("after"), id("acc"))},
 		// the whole right side is evaluated before any target is written: element swap, aliases, slices of a target
 		{gen.NSet("a", gen.NList(i64(1), i64(2), i64(3))), gen.NAssign("=", []*gen.Node{gen.NIndex(id("a"), i64(0)), gen.NIndex(id("a"), i64(2))}, []*gen.Node{gen.NIndex(id("a"), i64(2)), gen.NIndex(id("a"), i64(0))}), gen.NCall("probe", str("elem-swap"), id("a"))},
 		{gen.NSet("s2", gen.NList(i64(7), i64(8))), gen.NSet("s", id("s2")), gen.NAssign("=", []*gen.Node{gen.NIndex(id("s"), i64(0)), gen.NIndex(id("s"), i64(1))}, []*gen.Node{gen.NIndex(id("s2"), i64(1)), gen.NIndex(id("s2"), i64(0))}), gen.NCall("probe", str("alias-swap"), id("s"), id("s2"))},
